@@ -287,6 +287,9 @@ def run(check, an: Analysis):
                    where_fn(an.method(c15.HANDLER, '__init__')),
                    'the clock a ticker reads is the one of the simulation of its own thread')
     _scope.check_disable_interrupts(check, an, 'P')
+    # the kernel rules every suspending operation rests on (shared; see _scope)
+    from . import _scope as _kernel
+    _kernel.check_kernel_core(check, an)
     check.stats.update(an.stats())
 
 
